@@ -124,9 +124,22 @@ CHECKS = {
             "expression evaluated in-process.",
             "For two out statements the model accepts both 'nothing written' and 'first artifact written'; the exit status must be 1.",
             "DESIGN.md section 4 C14"),
+    "C16": ("model_checking",
+            "explicit-state breadth-first search over the real Environment with a differential invariant (E2) + replay of every batch trace "
+            "against the real binary (E3)",
+            "Project of 8 files (plain, library, importer, built-and-imported, importer of a built file, static type error, runtime failure, "
+            "one library under two path spellings). E2: BFS with events build(f); a transition replays the history in a fresh Environment "
+            "and applies one event; states are deduplicated on (val_cache keys, shape_cache keys, out_lock, collector); on every transition "
+            "the result (success, bound values or error, own artifact bytes) must equal the result in the initial state. On the current tree "
+            "the search closes: all 30 reachable states and 248 transitions are covered (bound: depth 4, thorough 6). E3: every ordered "
+            "sequence of 1..2 and a third of the length-3 sequences (thorough: all of length <= 4) in one `ucg build` invocation, run twice "
+            "in the same directory, plus build -r, compared per file with the alone baseline, and the exit status.",
+            "op_cache is left out of the state key: files do not change during a run, so states differing only there have the same futures. "
+            "Per-file success in a batch is read from the error lines on stderr.",
+            "DESIGN.md section 4 C16"),
 }
 
-CLAIMED = ["C01", "C02", "C03", "C04", "C05", "C07", "C10", "C11", "C12", "C13", "C14"]
+CLAIMED = ["C01", "C02", "C03", "C04", "C05", "C07", "C10", "C11", "C12", "C13", "C14", "C16"]
 
 NOT_YET = "check not built yet in this round; design in DESIGN.md section 4 (bounded-exhaustive enumeration applies)"
 
